@@ -967,7 +967,11 @@ impl Run {
     fn valid_submissions(&mut self, t: &SignedEntityType, ks: &Arc<KeySet>, message: &str) -> (BTreeSet<String>, BTreeSet<u64>) {
         let mut parties = BTreeSet::new();
         let mut indices = BTreeSet::new();
-        let subs = self.obs.subs.get(&tkey(t)).cloned().unwrap_or_default();
+        // every submission counts, whatever entity it was submitted for: the buffer is keyed by the entity TYPE, so a
+        // signature sent early under another beacon of the type is handed over to the open message it is valid for
+        // (what makes a submission count is that it is this party's valid signature of this very message)
+        let _ = t;
+        let subs: Vec<SubRec> = self.obs.subs.values().flatten().cloned().collect();
         for s in subs {
             let who = if self.opts.signers_by_true_key {
                 self.model.true_signer(ks, &s.sig, message)
